@@ -50,3 +50,9 @@ CLAIMS["C14"] = dict(
          "start states with 0, 1, 31 and 32 members, on the real TraceState against an ordered-list model with independently written W3C validity predicates; FromHeader over "
          "all single (thorough: double) point mutations of seed headers, in exact-size heap blocks under ASan, against an independent member parser (three-valued oracle).",
     note=SEQ_NOTE)
+
+
+# --- per-property fragments: harness/claim_*.py are executed with CLAIMS / notes in scope -----------
+import glob as _glob, os as _os
+for _f in sorted(_glob.glob(_os.path.join(_os.path.dirname(_os.path.abspath(__file__)), "claim_*.py"))):
+    exec(compile(open(_f).read(), _f, "exec"), {"CLAIMS": CLAIMS, "NOT_CLAIMED": NOT_CLAIMED, "SEQ_NOTE": SEQ_NOTE, "SCHED_NOTE": SCHED_NOTE})
